@@ -306,7 +306,7 @@ pub fn run(ctx: &Ctx) {
     }
     ctx.note("path_spelled_chains", json!(pkeys.len()));
     ctx.enumerate("c05.paths", &pkeys, |(t, m)| json!({"ty": ty_to_json(t), "mode": m}), |(t, m), stats| check_type_spelled(t, m, true, stats));
-    let cases = ctx.tier.pick(3000, 50000);
+    let cases = ctx.tier.pick(3000, 500000);
     ctx.search("c05.tree", cases, 64, |tape, stats| {
         let (ty, mode) = random_case(tape);
         stats.label("engine=random_tree");
